@@ -175,6 +175,13 @@ def _deep_tuple(v):
 INEXACT = {"pad:mean", "pad:linear_ramp"}
 
 
+def _is_chunk_offsets(case):
+    a, arr = case["args"], case["arrays"][0]
+    ch = arr["chunks"][a["axis"] % len(arr["shape"])]
+    offsets = [sum(ch[:i]) for i in range(len(ch))]
+    return list(a["indices"]) == offsets and all(c == 1 for c in a["idx_chunks"][0])
+
+
 def sig_of(case):
     op = case["op"]
     a = case["args"]
@@ -193,10 +200,11 @@ def sig_of(case):
         sig["value_dtype_differs"] = bool(np.result_type(adt, vdt) != adt)
     if op == "diff":
         sig["bool"] = case["arrays"][0]["dtype"] == "bool"
-    if op == "roll":
-        sig["scalar_shift_tuple_axis"] = isinstance(a.get("axis"), list) and not isinstance(a["shift"], list)
     if op == "take":
         sig["dask_index"] = a.get("idx_kind") == "da"
+        # a dask indexer in single-element chunks whose values are exactly the start offsets of the indexed axis' chunks
+        # (e.g. [0] for a one-chunk axis) -- the same data as the helper array slice_with_int_dask_array_on_axis builds
+        sig["index_is_chunk_offsets"] = bool(sig["dask_index"]) and _is_chunk_offsets(case)
     if op == "shuffle":
         sig["permutation"] = bool(a.get("permutation", True))
     if op == "reshape":
@@ -230,7 +238,19 @@ def check(case):
         raise
     what = f"{op}({a}) on chunks {[arr['chunks'] for arr in case['arrays']]} kinds {case['kinds']}"
     key = f"{op}:{a.get('mode')}" if op == "pad" else op
-    if key in INEXACT and np.asarray(want).dtype.kind in "fc":
+    if sig.get("int_mean") and np.shape(got) == np.shape(want):
+        # pad(mode="mean") of integer data: NumPy pads axis by axis and rounds to the integer dtype after every axis, so a corner
+        # (padded along >= 2 axes) is the rounded mean of already rounded means; dask rounds the exact mean of the same region once.
+        # Neither order is promised anywhere; this is the integer analogue of the summation-order tolerance for floats: corners may
+        # differ by one unit, everything else (edges padded along one axis, the interior, shape, dtype) is compared exactly.
+        corner = _pad_corner_mask(nps[0].shape, a["pad_width"])
+        g = np.asarray(got)
+        w = np.asarray(want)
+        A.same_array(np.where(corner, w, g).astype(g.dtype), w, what=what, sig=sig)
+        diff = np.abs(g.astype("f8") - w.astype("f8"))
+        ensure(bool(np.all(diff[corner] <= 1)), f"{what}: corner values differ by more than one rounding step: dask {A.describe(g)} != numpy {A.describe(w)}",
+               "value-mismatch", **sig)
+    elif key in INEXACT and np.asarray(want).dtype.kind in "fc":
         # mean: summation order; linear_ramp: both sides call np.linspace, but from opposite ends (last-ulp differences)
         rtol, atol = A.sum_tolerance(nps[0])
         A.same_array(got, want, exact=False, rtol=rtol, atol=atol, what=what, sig=sig)
@@ -238,6 +258,18 @@ def check(case):
         A.same_array(got, want, what=what, sig=sig)
     A.check_meta(r, got, what=what, sig=sig)
     C.check_chunks_valid(r, what, sig)
+
+
+def _pad_corner_mask(shape, pad_width):
+    """True where an element of the padded array lies outside the original extent along >= 2 axes."""
+    nd = len(shape)
+    pw = np.broadcast_to(np.asarray(pad_width), (nd, 2))  # NumPy's own normalisation of pad_width
+    count = np.zeros([int(n + l + r) for n, (l, r) in zip(shape, pw)], dtype=int)
+    for ax, (n, (l, r)) in enumerate(zip(shape, pw)):
+        i = np.arange(n + l + r)
+        outside = ((i < l) | (i >= l + n)).astype(int)
+        count = count + outside.reshape([-1 if d == ax else 1 for d in range(nd)])
+    return count >= 2
 
 
 def _reshape_must_work(case, x):
@@ -776,7 +808,7 @@ def shift_case(draw):
         return mk(op, arrays, args, kinds)
     # roll
     arr = draw(C.arr(shape=shape, dtypes=MOVE_DTYPES))
-    mode = draw(st.sampled_from(["flat", "int", "int", "tuple", "tuple", "bcast"]))
+    mode = draw(st.sampled_from(["flat", "int", "int", "tuple", "tuple"]))
     big = st.integers(-15, 15)
     if mode == "flat":
         return mk(op, [arr], {"shift": draw(big), "axis": None})
@@ -784,9 +816,9 @@ def shift_case(draw):
         return mk(op, [arr], {"shift": draw(big), "axis": draw(axis_st(nd))})
     k = draw(st.integers(1, 3))
     axes = [draw(axis_st(nd)) for _ in range(k)]
-    if mode == "bcast" and draw(st.integers(0, 2)) == 0:
-        # NumPy: "If an int while axis is a tuple of ints, then the same value is used for all given axes"
-        return mk(op, [arr], {"shift": draw(big), "axis": axes})
+    # NOT generated: a scalar shift with a tuple of axes.  NumPy broadcasts it ("the same value is used for all given axes"), dask
+    # deliberately refuses: the pinned test_routines.py::test_roll requires ValueError whenever the numbers of shifts and axes
+    # differ, so this spelling is outside dask's (tested) domain of roll, not a defect the property could decide.
     return mk(op, [arr], {"shift": [draw(big) for _ in range(k)], "axis": axes})
 
 
